@@ -79,7 +79,7 @@ def stage_prefix(persist_loss):
 def scenarios(ctx):
     q = ctx.quick
     out = []
-    starts = (65530, 65533, 65535) if q else (65530, 65531, 65532, 65533, 65534, 65535)
+    starts = (65533, 65535) if q else (65530, 65531, 65532, 65533, 65534, 65535)
     for persist_loss in (False, True):
         for id0 in starts:
             if q and persist_loss and id0 != 65533:
